@@ -857,13 +857,13 @@ let run_recon toks =
       | ["F"; x; s; e] -> fetch := !fetch @ [(int_of_string x, int_of_string s, int_of_string e)]
       | _ -> ()) ops;
   let chunks x s e = List.init (e - s) (fun k -> recon_chunk x (s + k) (!xorbs).(x).(s + k)) in
-  (* the data of a term: download the first fetch range of its xorb that covers it, trim *)
+  (* the data of a term: the model's get_one_term (cold cache: the first fetch-info entry of the term's xorb that covers it is
+     downloaded and trimmed); the fetch info is the list of ranges recorded for that xorb, in the order of the case *)
   let term_data (x, s, e) =
-    let (fx, fs, fe) = List.find (fun (fx, fs, fe) -> fx = x && fs <= s && fe >= e) !fetch in
+    let infos = List.filter_map (fun (fx, fs, fe) -> if fx = x then Some (n_of_int fs, n_of_int fe) else None) !fetch in
     let ul = List.fold_left (fun a c -> a + List.length c) 0 (chunks x s e) in
-    ignore fx;
-    (match trim_term (chunks x fs fe) (n_of_int fs) (n_of_int s) (n_of_int e) (n_of_int ul) with
-     | Some d -> d | None -> failwith "trim_term: error") in
+    (match get_one_term None infos (fun fs fe -> chunks x (int_of_n fs) (int_of_n fe)) (n_of_int s) (n_of_int e) (n_of_int ul) with
+     | Some d -> d | None -> failwith "get_one_term: error") in
   let tdata = List.map term_data !terms in
   let qn = ref 0 in
   List.concat_map (fun op -> match op with
